@@ -91,6 +91,18 @@ def handle (op : String) (j : Json) : Except String Json := do
                        else searchScan (rxOf tbl) inv m t cs 0
     pure (Json.mkObj [("hits", natsToJson hits),
                       ("err", match err with | some e => errToJson e | none => Json.null)])
+  | "attrscan" =>
+    -- {"inv", "m", "t", "c": [scalar | null …], "rx"} ↦ positions yielded by a named-attribute search over a list of
+    -- records; a JSON null candidate is a record with no value at the attribute
+    let m ← methodOfName (← getStr j "m")
+    let inv ← getBool j "inv"
+    let t := s2l (← getStr j "t")
+    let cs ← (← getArr j "c").toList.mapM (fun c => match c with
+      | .null => pure none
+      | c => do pure (some (← scalarOfJson c)))
+    let (hits, err) := searchAttrScan (rxOf (rxTable j)) inv m t cs 0
+    pure (Json.mkObj [("hits", natsToJson hits),
+                      ("err", match err with | some e => errToJson e | none => Json.null)])
   | _ => throw s!"C12: unknown op {op}"
 
 end Ypv.Drv.C12
